@@ -133,7 +133,11 @@ func H_c03_message_sizes() {
 		in = append(in, [...]string{" a.txt", "", "\ta.txt", " "}[symInt(0, 3)]...)
 		in = append(in, "\r\nBody: 1"...)
 	}
-	in = append(in, "\r\n\r\nxyz\r\n"...)
+	if field == "File: " {
+		in = append(in, "\r\n\r\nx\r\nabc\r\n"...) // a well-formed one-byte body, then the file section
+	} else {
+		in = append(in, "\r\n\r\nxyz\r\n"...)
+	}
 	symLimitAlloc(1 << 16)
 	m := new(Message)
 	err := m.ReadFrom(&sliceReader{b: in})
